@@ -6,7 +6,7 @@
     with the pre-image reproduced byte for byte); statements that need keys to
     differ assume [injective H] explicitly, nothing else is assumed about it. *)
 From Coq Require Import Permutation.
-From HV Require Import Base.Prelude C11.Model C11.Spec C11.Proofs.
+From HV Require Import Base.Prelude C11.Model C11.Spec C11.Proofs C11.Proofs2.
 
 (** No boundary shifting: two pre-images with the same sequence of writes in
     which at most one write differs in length are equal only if every single
@@ -39,7 +39,52 @@ Theorem C11_F1_refuted :
 Proof. exact F1_refuted. Qed.
 Print Assumptions C11_F1_refuted.
 
-(** Cache transparency over histories: if, among the look-ups of a history,
+(** Key injectivity (no request receives a result computed for different
+    inputs): for a collision-free SHA-256, two look-ups of well-formed instances
+    that use the same key have the same key components — mechanism kind, endpoint
+    (url, method, headers, authentication strategy), credential or (id, forwarded
+    names, rendered payload, ttl, subject JSON) and rendered values — whatever the
+    iteration orders, unless their pre-images can be shifted against each other
+    (guard of C11-F4) *)
+Theorem C11_key_injective : forall H a b k,
+  (forall x y, H x = H y -> x = y) ->
+  wf_instb (st_inst a) = true -> wf_instb (st_inst b) = true ->
+  valid_orders (st_inst a) (st_ho a) (st_vo a) -> valid_orders (st_inst b) (st_ho b) (st_vo b) ->
+  cache_key H (st_ho a) (st_vo a) (st_inst a) (st_req a) = Some k ->
+  cache_key H (st_ho b) (st_vo b) (st_inst b) (st_req b) = Some k ->
+  p_F4 H a b = false ->
+  exists c, components a = Some c /\ components b = Some c.
+Proof. exact key_injective. Qed.
+Print Assumptions C11_key_injective.
+
+(** Cache transparency (enabling a cache never changes a decision): for a
+    collision-free SHA-256 and EVERY history of look-ups — any instances of the
+    four mechanisms, prototypes and rule-level reconfigurations, any requests,
+    any iteration orders — on which none of the guards of C11-F2 (assertions),
+    F3 (expressions), F4 (shifted writes), F6 (forwarded values), F7 (outputs in
+    endpoint templates) fires, every outcome with the cache is the outcome of a
+    fresh evaluation under the instance's own policy *)
+Theorem C11_cache_transparent : forall H w h,
+  (forall x y, H x = H y -> x = y) -> wf_history h ->
+  g_F2 h = false -> g_F3 h = false -> g_F4 H h = false -> g_F6 h = false -> g_F7 h = false ->
+  map sr_out (run_cached H w [] h) = map fst (run_fresh w h).
+Proof. exact cache_transparent. Qed.
+Print Assumptions C11_cache_transparent.
+
+(** the hypotheses of the two main theorems are satisfied by a history with
+    two subjects, two values and a repeated request *)
+Theorem C11_nonvacuous :
+  wf_history ok_history /\
+  g_F1 ok_history (Some 0) = false /\ g_F2 ok_history = false /\ g_F3 ok_history = false /\
+  (forall H, (forall x, String.length (H x) = 32) -> g_F4 H ok_history = false) /\
+  g_F6 ok_history = false /\ g_F7 ok_history = false /\
+  (exists a b, nth_error ok_history 0 = Some a /\ nth_error ok_history 2 = Some b /\ same_request a b = true /\
+               enabled (st_inst a) = true /\ order_free (st_inst a) = true /\
+               exists r, fresh_of w_world a = OAllow r).
+Proof. exact nonvacuous. Qed.
+Print Assumptions C11_nonvacuous.
+
+(** The semantic core of the transparency proof, for all histories: if, among the look-ups of a history,
     requests that share a key are requests for which a fresh evaluation yields
     the same allowed result, then every outcome with the cache equals the
     outcome without it — for all histories, instances, requests and iteration orders *)
